@@ -16,6 +16,19 @@ def sh(cmd, **kw):
     return subprocess.run(cmd, shell=isinstance(cmd, str), capture_output=True, text=True, **kw)
 
 
+_BASE = {}
+_BASE_LOCK = __import__("threading").Lock()
+
+
+def baseline_keys(prop, tier):
+    """violation keys the same command reports on the unchanged tree (same shard count and seed): they say nothing about a seeded change"""
+    with _BASE_LOCK:
+        if prop not in _BASE:
+            k = subprocess.run([os.path.join(ROOT, "check"), prop, "--tier", tier, "--no-evidence", "--shards", "8"], env=dict(os.environ, PYTHONDONTWRITEBYTECODE="1"), capture_output=True, text=True, timeout=7200, cwd=ROOT)
+            _BASE[prop] = {"rc": k.returncode, "keys": sorted(set(re.findall(r"VIOLATION property=\S+ replay=\S+ key=(\S+)", k.stdout)))}
+        return _BASE[prop]
+
+
 def run_one(prop, mdir, tier, checks_extra=()):
     name = "%s/%s" % (prop, os.path.basename(mdir))
     wt = tempfile.mkdtemp(prefix="mut-%s-" % prop, dir="/tmp")
@@ -50,8 +63,10 @@ def run_one(prop, mdir, tier, checks_extra=()):
             t1 = time.time()
             k = subprocess.run([os.path.join(ROOT, "check"), p, "--tier", tier, "--no-evidence", "--shards", "8"], env=dict(env, BNPMON_REPO=wt), capture_output=True, text=True, timeout=7200, cwd=ROOT)
             keys = re.findall(r"VIOLATION property=\S+ replay=\S+ key=(\S+)", k.stdout)
-            res.setdefault("checks", {})[p] = {"rc": k.returncode, "violation_keys": keys[:6], "wall_s": round(time.time() - t1, 1), "tail": k.stdout.strip().splitlines()[-1][:200] if k.stdout.strip() else k.stderr[-200:]}
-        res["caught"] = res["checks"][prop]["rc"] == 1
+            base = baseline_keys(p, tier)
+            keys = [x for x in keys if x not in base["keys"]]
+            res.setdefault("checks", {})[p] = {"rc": k.returncode, "violation_keys": keys[:6], "unchanged_tree_same_command": base, "wall_s": round(time.time() - t1, 1), "tail": k.stdout.strip().splitlines()[-1][:200] if k.stdout.strip() else k.stderr[-200:]}
+        res["caught"] = res["checks"][prop]["rc"] == 1 and bool(res["checks"][prop]["violation_keys"])
     except Exception as e:
         res["error"] = repr(e)
     finally:
